@@ -820,4 +820,81 @@ def rule_count(ctx):
     return r
 
 
-RULES = [rule_topo, rule_linear, rule_ssaid, rule_edge, rule_count]
+class _NoVal(Exception):
+    pass
+
+
+def _sval(e, env):
+    """evaluation of a pure expression over sample values (len / sum / map / max / min / range, arithmetic,
+    generator expressions) — used to compare the inferred input count with its definition"""
+    if isinstance(e, ast.Constant):
+        return e.value
+    if isinstance(e, ast.Name):
+        if e.id in env:
+            return env[e.id]
+        raise _NoVal(e.id)
+    if isinstance(e, ast.BinOp):
+        a, b = _sval(e.left, env), _sval(e.right, env)
+        ops = {ast.Add: lambda: a + b, ast.Sub: lambda: a - b, ast.Mult: lambda: a * b, ast.FloorDiv: lambda: a // b}
+        if type(e.op) in ops:
+            return ops[type(e.op)]()
+        raise _NoVal("op")
+    if isinstance(e, ast.UnaryOp) and isinstance(e.op, ast.USub):
+        return -_sval(e.operand, env)
+    if isinstance(e, (ast.Tuple, ast.List)):
+        return [_sval(x, env) for x in e.elts]
+    if isinstance(e, (ast.GeneratorExp, ast.ListComp)) and len(e.generators) == 1 and not e.generators[0].ifs \
+            and isinstance(e.generators[0].target, ast.Name):
+        g = e.generators[0]
+        return [_sval(e.elt, dict(env, **{g.target.id: v})) for v in _sval(g.iter, env)]
+    if isinstance(e, ast.Call) and isinstance(e.func, ast.Name) and not e.keywords:
+        fn = e.func.id
+        if fn == "map" and len(e.args) == 2 and isinstance(e.args[0], ast.Name) and e.args[0].id in ("len", "sum", "max", "min"):
+            f_ = {"len": len, "sum": sum, "max": max, "min": min}[e.args[0].id]
+            return [f_(v) for v in _sval(e.args[1], env)]
+        if fn in ("len", "sum", "max", "min", "list", "tuple", "sorted") and len(e.args) == 1:
+            v = _sval(e.args[0], env)
+            return {"len": len, "sum": sum, "max": max, "min": min, "list": list, "tuple": list, "sorted": sorted}[fn](v)
+        if fn == "range":
+            return list(range(*[_sval(a, env) for a in e.args]))
+    raise _NoVal(C.unparse(e, 40))
+
+
+def rule_infer(ctx):
+    """(seed C10_6) 'Linear <-> SSA conversion is an exact inverse pair' also for the paths the edge-path converter and
+    opt_einsum emit: a step may take k >= 3 (or one) tensors and then consumes k - 1 ids.  The count the converters
+    infer when none is given is evaluated on sample paths (pairwise, three-tensor step, single-tensor step, empty)
+    and compared with its definition, sum(len(step)) - steps + 1."""
+    r = RuleResult("C10-INFER", "the inferred number of inputs counts k - 1 consumed ids per step", 2)
+    samples = [[[0, 1], [2, 3]], [[0, 1, 2], [3, 4]], [[0], [1, 2]], [[0, 1, 2, 3]], [], [[0, 1], [0, 1], [0, 1]]]
+    for name in ("linear_to_ssa", "ssa_to_linear"):
+        f = ctx.p.func(C.BASIC, name)
+        C.require(f is not None, f"{name} not found")
+        params = [a.arg for a in f.node.args.args]
+        C.require(len(params) >= 2, f"{name}(path, N) expected")
+        pth, nn = params[0], params[1]
+        k = ctx.key(f, "C10-INFER")
+        defs = [n for n in walk_local(f.node) if isinstance(n, ast.Assign) and any(isinstance(t, ast.Name) and t.id == nn for t in n.targets)
+                and any(i_.test is not None and nn in C.unparse(i_.test) and "None" in C.unparse(i_.test) for i_, t in C.enclosing_ifs(f, n))]
+        if not defs:
+            r.exempt(k, f.loc, f"`{nn}` is not inferred in {name}")
+            continue
+        bad = None
+        try:
+            for smp in samples:
+                got = _sval(defs[0].value, {pth: smp})
+                want = sum(len(x) for x in smp) - len(smp) + 1
+                if got != want and bad is None:
+                    bad = (smp, got, want)
+        except _NoVal as e:
+            raise AnalysisError(f"{name}: inferred count `{C.unparse(defs[0].value, 60)}` not evaluable ({e})")
+        if bad:
+            r.violation(k, C.loc(f, defs[0]), f"`{C.unparse(defs[0], 60)}` gives {bad[1]} inputs for the path {bad[0]} (it has {bad[2]}): a step of k tensors "
+                        "consumes k - 1 ids; with the count too small, new ids collide with inputs and positions run out of range — "
+                        "the two converters are no longer inverse to each other for such paths")
+        else:
+            r.ok(k, C.loc(f, defs[0]), f"inferred count = sum(len(step)) - steps + 1 on {len(samples)} sample paths")
+    return r
+
+
+RULES = [rule_infer, rule_topo, rule_linear, rule_ssaid, rule_edge, rule_count]
